@@ -59,6 +59,63 @@ def run_cvc5(smt2, timeout_ms):
         os.unlink(path)
 
 
+class _Cvc5Race(object):
+    """cvc5 on the same query in a child process while z3 works in this one; whoever decides first wins
+    (a decision of cvc5 interrupts z3)"""
+
+    def __init__(self, solver, timeout_ms):
+        self.result = "unknown"
+        self.proc = None
+        self.path = None
+        self.solver = solver
+        exe = "/usr/bin/cvc5"
+        if not os.path.exists(exe):
+            return
+        try:
+            smt2 = solver.to_smt2().replace("(check-sat)", "")
+            smt2 = smt2.replace("(seq.nth_u ", "(seq.nth ").replace("(seq.nth_i ", "(seq.nth ")
+            with tempfile.NamedTemporaryFile("w", suffix=".smt2", delete=False) as f:
+                f.write("(set-logic ALL)\n" + smt2 + "\n(check-sat)\n")
+                self.path = f.name
+            self.smt2 = smt2
+            self.proc = subprocess.Popen([exe, "--strings-exp", "--tlimit=%d" % timeout_ms, self.path],
+                                         stdout=subprocess.PIPE, stderr=subprocess.DEVNULL, text=True)
+            import threading
+            self.thread = threading.Thread(target=self._watch, daemon=True)
+            self.thread.start()
+        except Exception:
+            self.proc = None
+
+    def _watch(self):
+        try:
+            out, _ = self.proc.communicate()
+            lines = (out or "").strip().splitlines()
+            self.result = lines[0] if lines else "unknown"
+            if self.result in ("sat", "unsat"):
+                try:
+                    self.solver.ctx.interrupt()
+                except Exception:
+                    pass
+        except Exception:
+            self.result = "unknown"
+
+    def finish(self, wait_s):
+        if self.proc is None:
+            return "unknown"
+        try:
+            self.thread.join(wait_s)
+            if self.thread.is_alive():
+                self.proc.kill()
+                self.thread.join(2)
+        finally:
+            if self.path:
+                try:
+                    os.unlink(self.path)
+                except OSError:
+                    pass
+        return self.result if self.result in ("sat", "unsat") else "unknown"
+
+
 def _seq_terms(exprs, limit=400):
     """sub-terms of sequence sort that are not built by sequence operators (variables, selects, UF applications)"""
     seen = set()
@@ -80,7 +137,7 @@ def _seq_terms(exprs, limit=400):
     return out
 
 
-def bounded_model_search(assumptions, goal, timeout_ms, bound=3):
+def bounded_model_search(assumptions, goal, timeout_ms, bound=3, total_s=25.0):
     """refutation only: look for a counter-model in which every sequence/string variable is short.
     Sequences of non-character elements are made explicit (a concatenation of `n` unit sequences over fresh
     element constants, n <= bound), strings get a length bound.  Adding constraints can only lose models, so
@@ -90,7 +147,10 @@ def bounded_model_search(assumptions, goal, timeout_ms, bound=3):
     strs = [t for t in terms if t.sort() == z3.StringSort()]
     seqs = [t for t in terms if t.sort() != z3.StringSort()][:3]
     last = (z3.unknown, None)
+    t_end = time.time() + total_s
     for lens in itertools.product(range(bound + 1), repeat=len(seqs)):
+        if time.time() > t_end:
+            break  # (a search, not a decision: giving up leaves the obligation undecided)
         s = z3.Solver()
         s.set("timeout", timeout_ms)
         subst = []
@@ -123,15 +183,37 @@ def discharge(ob, timeout_ms=10000, use_cvc5=True, extract=None, max_models=1):
     r = Result(ob)
     t0 = time.time()
     if ob.expect == "sat":
-        # cover: at least one query satisfiable
+        # cover: at least one query satisfiable.  Passes: a short z3 attempt on every query, the short-sequence model
+        # search (constraints added, never removed: a model there is a model of the query), z3 with the full budget.
         status = "failed"
-        for assumptions, goal, note, case in ob.queries:
-            s = _mk_solver(assumptions, goal, timeout_ms)
-            res = s.check()
-            if res == z3.sat:
+        seen_unknown = False
+
+        def attempt(kind):
+            nonlocal seen_unknown
+            for assumptions, goal, note, case in ob.queries:
+                if kind == "search":
+                    try:
+                        res, _s2 = bounded_model_search(assumptions, goal, min(timeout_ms, 3000), 1, total_s=8.0)
+                    except Exception:
+                        res = z3.unknown
+                    if res == z3.sat:
+                        r.backend = "z3 (short-sequence model search)"
+                        return True
+                    continue
+                s = _mk_solver(assumptions, goal, min(1500, timeout_ms) if kind == "quick" else timeout_ms)
+                res = s.check()
+                if res == z3.sat:
+                    return True
+                if res == z3.unknown:
+                    seen_unknown = True
+            return False
+        if attempt("quick"):
+            status = "proved"
+        elif seen_unknown:
+            seen_unknown = False
+            if attempt("search") or attempt("full"):
                 status = "proved"
-                break
-            if res == z3.unknown:
+            elif seen_unknown:
                 status = "undecided"
         r.status = status
         if status == "failed":
@@ -142,15 +224,22 @@ def discharge(ob, timeout_ms=10000, use_cvc5=True, extract=None, max_models=1):
     for assumptions, goal, note, case in ob.queries:
         if z3.is_true(goal):
             continue
-        s = _mk_solver(assumptions, goal, timeout_ms)
+        quick_ms = min(1500, timeout_ms)
+        s = _mk_solver(assumptions, goal, quick_ms)
         res = s.check()
-        if res == z3.unknown and use_cvc5:
-            try:
-                smt2 = s.to_smt2()
-                smt2 = smt2.replace("(check-sat)", "")
-                cres = run_cvc5(smt2, timeout_ms)
-            except Exception:
-                cres = "unknown"
+        if res == z3.unknown and timeout_ms > quick_ms:
+            # undecided at once: z3 with the full budget and cvc5 side by side
+            race = _Cvc5Race(s, timeout_ms) if use_cvc5 else None
+            s = _mk_solver(assumptions, goal, timeout_ms)
+            if race is not None:
+                race.solver = s
+            res = s.check()
+            cres = "unknown"
+            smt2 = getattr(race, "smt2", "") if race is not None else ""
+            if race is not None:
+                cres = race.finish(0.0 if res != z3.unknown else timeout_ms / 1000.0 + 2)
+            if res != z3.unknown:
+                cres = "unknown"  # z3 decided (with a model, if sat): its verdict is used
             if cres == "unsat":
                 res = z3.unsat
                 r.backend = "z3+cvc5"
